@@ -92,9 +92,20 @@ class LocalVar:
 
 
 def _walk(node):
-    yield node
-    for c in node.children():
-        yield from _walk(c)
+    """All nodes of a subtree (iterative pre-order)."""
+    stack = [node]
+    pop = stack.pop
+    while stack:
+        n = pop()
+        yield n
+        for f in n._fields:
+            v = getattr(n, f)
+            if v.__class__ is list:
+                for x in v:
+                    if isinstance(x, A.Node):
+                        stack.append(x)
+            elif isinstance(v, A.Node):
+                stack.append(v)
 
 
 # ---------------------------------------------------------------------------
@@ -161,7 +172,7 @@ class FuncCompiler(ExprMixin, Expr2Mixin, StmtMixin):
         cur[name] = LocalVar("const", name, None, typ, cval=val)
 
     # -- function compilation ------------------------------------------------
-    def compile_func(self, decl: A.FuncDecl, sig: T.Signature, pyname: str, recv) -> List[str]:
+    def compile_func(self, decl: A.FuncDecl, sig: T.Signature, pyname: str, recv, has_defer: bool = False) -> List[str]:
         """-> python source lines of the function."""
         self.sig = sig
         self.push_scope()
@@ -199,7 +210,6 @@ class FuncCompiler(ExprMixin, Expr2Mixin, StmtMixin):
                 self.named_results.append(lv)
                 z = self.zero(t)
                 prologue.append(f"{lv.py} = [{z}]" if lv.boxed else f"{lv.py} = {z}")
-        has_defer = any(isinstance(n, A.DeferStmt) for n in _walk(decl.body))
         if has_defer and self.named_results and any(lv.boxed for lv in self.named_results):
             unsupported(decl, "defer in a function whose named results have their address taken")
         self.ind = 2 if has_defer else 1
@@ -294,9 +304,15 @@ class PkgUnit:
         self.method_table: Dict[str, Dict[str, T.Method]] = {}
         self.blank_vars: List = []
         self._method_files: Dict[str, FileCtx] = {}
+        self._pynames: Set[str] = set()
         self.pysrc = ""
         self.code = None
         self.build()
+
+    def claim_pyname(self, pyname: str, node):
+        if pyname in self._pynames:
+            unsupported(node, f"python name collision for {pyname} (non-ASCII identifier mangling)")
+        self._pynames.add(pyname)
 
     # -- references to run-time objects ------------------------------------
     def rt_ref(self, t: T.Type) -> str:
@@ -410,6 +426,8 @@ class PkgUnit:
                         unsupported(d, "function declarations without body")
                     ent = Ent("func", d.name.name, d, f)
                     ent.pyname = "F_" + mangle(d.name.name)
+                    if d.name.name != "_":
+                        self.claim_pyname(ent.pyname, d)
                     if d.name.name == "_":
                         continue
                     self.declare(ent, d.name)
@@ -624,7 +642,10 @@ class PkgUnit:
                 err(d, f"method {rt.name}.{name} already declared")
             if isinstance(nu, T.Struct) and name in nu.index:
                 err(d, f"field and method with the same name {name}")
-            pyname = f"M_{mangle(named.name)}_{mangle(name)}"
+            # the index of the receiver type makes the name unambiguous
+            # (type A_B method C  vs  type A method B_C)
+            pyname = f"M_{self.named_types.index(named)}_{mangle(named.name)}_{mangle(name)}"
+            self.claim_pyname(pyname, d)
             m = T.Method(name, named, ptr, sig, pyname, d, self.path)
             m_file = f
             named.methods[name] = m
@@ -708,17 +729,22 @@ class PkgUnit:
     # -- code generation -----------------------------------------------------
     def compile_function(self, decl: A.FuncDecl, file: FileCtx, sig: T.Signature, pyname: str, recv) -> List[str]:
         boxed: Set[str] = set()
+        has_defer = False
         for n in _walk(decl.body):
-            if isinstance(n, A.UnaryExpr) and n.op == "&":
-                x = n.x
-                while isinstance(x, A.ParenExpr):
-                    x = x.x
-                if isinstance(x, A.Ident):
-                    boxed.add(x.name)
+            c = n.__class__
+            if c is A.UnaryExpr:
+                if n.op == "&":
+                    x = n.x
+                    while isinstance(x, A.ParenExpr):
+                        x = x.x
+                    if isinstance(x, A.Ident):
+                        boxed.add(x.name)
+            elif c is A.DeferStmt:
+                has_defer = True
         for _attempt in range(64):
             fc = FuncCompiler(self, file, boxed)
             try:
-                return fc.compile_func(decl, sig, pyname, recv)
+                return fc.compile_func(decl, sig, pyname, recv, has_defer)
             except NeedBox as nb:
                 if nb.name in boxed:
                     raise AssertionError(f"boxing loop for {nb.name}")
@@ -743,27 +769,54 @@ class PkgUnit:
         var_spec = {}
         for ent in self.var_ents:
             var_spec[ent.name] = ent.node
-        func_refs_cache: Dict[str, Set[str]] = {}
+        # direct references of every function / method body, computed once
+        methods_by_name: Dict[str, List[T.Method]] = {}
+        for _tname, ms in self.method_table.items():
+            for mname, m in ms.items():
+                methods_by_name.setdefault(mname, []).append(m)
+        direct_cache: Dict[int, tuple] = {}
+
+        def direct(node):
+            """-> (vars, funcs, method names) referenced directly inside node."""
+            key = id(node)
+            r = direct_cache.get(key)
+            if r is None:
+                vs: Set[str] = set()
+                fs: Set[str] = set()
+                sels: Set[str] = set()
+                for n in _walk(node):
+                    c = n.__class__
+                    if c is A.Ident:
+                        ent = self.scope.get(n.name)
+                        if ent is not None:
+                            if ent.kind == "var":
+                                vs.add(n.name)
+                            elif ent.kind == "func":
+                                fs.add(n.name)
+                    elif c is A.SelectorExpr:
+                        if n.sel in methods_by_name:
+                            sels.add(n.sel)
+                r = direct_cache[key] = (vs, fs, sels)
+            return r
 
         def refs_of(node, seen_funcs: Set[str]) -> Set[str]:
+            """Package level variables referenced from node, transitively
+            through functions and (conservatively, by name) methods."""
             out: Set[str] = set()
-            for n in _walk(node):
-                if isinstance(n, A.Ident):
-                    ent = self.scope.get(n.name)
-                    if ent is None:
-                        continue
-                    if ent.kind == "var":
-                        out.add(n.name)
-                    elif ent.kind == "func" and n.name not in seen_funcs:
-                        seen_funcs.add(n.name)
-                        out |= refs_of(ent.node.body, seen_funcs)
-                elif isinstance(n, A.SelectorExpr):
-                    # method calls: conservatively include every method with that name
-                    for tname, ms in self.method_table.items():
-                        m = ms.get(n.sel)
-                        if m is not None and m.pyname not in seen_funcs:
+            work = [node]
+            while work:
+                cur = work.pop()
+                vs, fs, sels = direct(cur)
+                out |= vs
+                for fn in fs:
+                    if fn not in seen_funcs:
+                        seen_funcs.add(fn)
+                        work.append(self.scope[fn].node.body)
+                for sel in sels:
+                    for m in methods_by_name[sel]:
+                        if m.pyname not in seen_funcs:
                             seen_funcs.add(m.pyname)
-                            out |= refs_of(m.decl.body, seen_funcs)
+                            work.append(m.decl.body)
             return out
 
         deps = {}
